@@ -89,7 +89,8 @@ def check_dropall(E, st, mid, prim):
     z = st.zone
     lo, hi = m2.hole_rng
     allgone = (z.entails_eq(lo, 0) and z.entails_eq(hi, m2.len) and not m2.holes) or z.entails_eq(m2.len, 0)
-    noextra = not m2.extras and slots.empty(z, m2.extra_rng)
+    noextra = (not m2.extras and slots.empty(z, m2.extra_rng)) or st.unwinding
+    # (while unwinding, elements outside the published prefix are leaked: tolerated)
     E.oblig('DROPALL', allgone and noextra, prim,
             'Drop for the container does not destroy exactly its live elements: %s' % m2.describe(),
             'unproven', sample=m2.describe())
@@ -107,7 +108,10 @@ def exit_checks(E, st, kind, retval, is_drop_root=False):
     for mid, ms in st.maps.items():
         if ms.dead:
             continue
-        rule = 'ESC' if unw else 'INV'
+        rule = 'INV'
+        if unw:
+            origin = [e for e in st.events if e and e[0] == 'panic']
+            rule = 'ESC-user' if (origin and origin[-1][1] == 'user') else 'ESC-own'
         if is_drop_root and ms.borrowed and not ms.phantom:
             # the receiver of Drop::drop is deallocated next: nothing observes it any more
             if not unw:
@@ -186,6 +190,7 @@ def run_root(E, body, contract=None):
         for kind, s, v in res:
             E.chain = [body.id]
             E.cur_span = body.span
+            E.in_unwind = (kind == 'unwind')
             try:
                 exit_checks(E, s, kind, v, is_drop)
             except Unproven as e:
